@@ -711,6 +711,66 @@ fn fam_schema(func: Option<&str>, only: Option<u64>) {
     rep.print();
 }
 
+// C05: emptiness of an intersection of two tuple types over basic item types, against an independent
+// reading: some length n is allowed by both and every position has a common basic type.
+fn fam_listfold(_func: Option<&str>, only: Option<u64>) {
+    let mut rep = Rep::new("listfold", "list_formula_is_empty", only);
+    let basics = [SubTypeTag::String, SubTypeTag::Number, SubTypeTag::Boolean];
+    // a tuple shape: prefix tags, rest tag (None = closed)
+    let mut shapes: Vec<(Vec<SubTypeTag>, Option<SubTypeTag>)> = vec![];
+    for len in 0..=2usize {
+        let mut idx = vec![0usize; len];
+        loop {
+            let pre: Vec<SubTypeTag> = idx.iter().map(|i| basics[*i]).collect();
+            shapes.push((pre.clone(), None));
+            for r in basics {
+                shapes.push((pre.clone(), Some(r)));
+            }
+            let mut k = 0;
+            loop {
+                if k == len { break; }
+                idx[k] += 1;
+                if idx[k] < basics.len() { break; }
+                idx[k] = 0;
+                k += 1;
+            }
+            if k == len { break; }
+        }
+    }
+    let item = |s: &(Vec<SubTypeTag>, Option<SubTypeTag>), i: usize| -> Option<SubTypeTag> { if i < s.0.len() { Some(s.0[i]) } else { s.1 } };
+    let allows_len = |s: &(Vec<SubTypeTag>, Option<SubTypeTag>), n: usize| -> bool { n == s.0.len() || (n > s.0.len() && s.1.is_some()) };
+    let spec_nonempty = |a: &(Vec<SubTypeTag>, Option<SubTypeTag>), b: &(Vec<SubTypeTag>, Option<SubTypeTag>)| -> bool {
+        (0..=4usize).any(|n| allows_len(a, n) && allows_len(b, n) && (0..n).all(|i| item(a, i).is_some() && item(a, i) == item(b, i)))
+    };
+    let mk = |ctx: &mut SemTypeContext, s: &(Vec<SubTypeTag>, Option<SubTypeTag>)| -> Rc<SemType> {
+        let pre: Vec<Rc<SemType>> = s.0.iter().map(|t| Rc::new(SemType::new_basic(t.code()))).collect();
+        let rest = s.1.map(|t| Rc::new(SemType::new_basic(t.code())));
+        Rc::new(ctx.tuple(pre, rest))
+    };
+    for a in &shapes {
+        for b in &shapes {
+            for order in 0..2 {
+                if !rep.want() {
+                    continue;
+                }
+                let mut ctx = SemTypeContext::new();
+                // the order in which the two atoms are defined decides which one is folded first
+                let (ta, tb) = if order == 0 { let x = mk(&mut ctx, a); let y = mk(&mut ctx, b); (x, y) } else { let y = mk(&mut ctx, b); let x = mk(&mut ctx, a); (x, y) };
+                let i = match ta.intersect(&tb) { Ok(i) => i, Err(e) => { rep.fail(format!("{:?} & {:?}", a, b), format!("Err({})", e), "Ok".into()); continue; } };
+                match i.is_empty(&mut ctx) {
+                    Ok(e) => {
+                        if e == spec_nonempty(a, b) {
+                            rep.fail(format!("tuple (prefix, rest) {:?} & {:?}, second defined first: {}", a, b, order == 1), format!("is_empty = {}", e), format!("is_empty = {}", !spec_nonempty(a, b)));
+                        }
+                    }
+                    Err(e) => rep.fail(format!("{:?} & {:?}", a, b), format!("Err({})", e), "Ok".into()),
+                }
+            }
+        }
+    }
+    rep.print();
+}
+
 fn main() {
     let args: Vec<String> = std::env::args().collect();
     let fam = args.get(1).map(|s| s.as_str()).unwrap_or("all");
@@ -738,6 +798,7 @@ fn main() {
         "proper" => fam_proper(f, only),
         "semtype" => fam_semtype(f, only),
         "schema" => fam_schema(f, only),
+        "listfold" => fam_listfold(f, only),
         _ => {
             fam_bdd(f, only);
             fam_dnf(f, only);
